@@ -77,6 +77,7 @@ type Path struct {
 	revMaps    bool
 	syncMaps   map[*value]*Map
 	tries      map[*value]*[]value
+	jsonBlobs  map[*value]value
 	dom       map[string]*byteDom
 	entangled  map[string]bool
 	domDecided int
